@@ -465,23 +465,35 @@ def summarise(files):
             if e == "Cfg":
                 cur = {"name": ev["name"], "tags": ev["tags"], "file": f, "deletes": 0, "failed": 0, "startFailed": 0, "started": 0,
                        "succeeded": 0, "restarts": 0, "quiescent": 0, "injected": 0, "cuts": 0, "panics": 0, "skips": 0,
-                       "cmd": {}, "deleting": {}, "q": False, "hooks": 0}
+                       "cmd": {}, "deleting": {}, "q": False, "hooks": 0, "repl": {}, "vanished": set(), "qcmd": None,
+                       "latched_vanish_delete": 0}
                 out[ev["name"]] = cur
             elif e == "Note" and ev.get("what") == "quiescent-begin":
                 cur["q"] = True
             elif e == "Api":
                 if ev.get("injected"):
                     cur["injected"] += 1
+                if ev["err"] == "-" and ev["kind"] == "NodeClaim" and ev.get("gone"):
+                    cur["vanished"].add(ev["name"])
                 if ev["actor"] == "disruption.queue" and ev["verb"] == "delete" and ev["kind"] == "NodeClaim" and ev["err"] == "-":
                     cur["deletes"] += 1
+                    if cur["vanished"] & set(cur["repl"].get(cur["qcmd"], [])):
+                        cur["latched_vanish_delete"] += 1   # observation, not judged: a latched replacement had disappeared
                     if not cur["q"]:
                         cur["deleting"][ev["name"]] = True
             elif e == "Read" and ev.get("injected"):
                 cur["injected"] += 1
+            elif e == "Env" and ev["kind"] == "NodeClaim" and not ev["post"].get("exists"):
+                cur["vanished"].add(ev["name"])
+            elif e == "Begin" and ev["controller"] == "disruption.queue":
+                cur["qcmd"] = ev["object"]
+            elif e == "OCmd" and ev.get("repl"):
+                cur["repl"][ev["cmd"]] = list(ev["repl"])
             elif e == "End" and ev["controller"] in CTRL:
                 if ev.get("panic"):
                     cur["panics"] += 1
                 if ev["controller"] == "disruption.start":
+                    cur["repl"][ev["object"]] = [r for r in ev.get("repl", []) if r != "-"]
                     cur["started" if ev["started"] else "startFailed"] += 1
                     if not cur["q"]:
                         cur["cmd"][ev["object"]] = "queued" if ev["started"] else "startFailed"
